@@ -4,6 +4,10 @@
 //
 //	verif_compile text <file.dbc>...          (replay: compile the given files)
 //
+// First the classification of the non-ASCII runes as the scanner sees them (UNI L|D <lo> <hi>, from
+// unicode.IsLetter / unicode.IsDigit: the oracle of the parser model, which the driver runs on every
+// TEXT so that the source text - not the definitions the tree's parser produced - is the reference).
+//
 // Generates DBC files of the compile class (DESIGN.md 4.2) from a seeded PRNG, renders each in
 // the original order and in permuted orders (messages among themselves, signals inside a
 // message, resolved metadata lines among themselves: ALL permutations for <= 4 items, 24 random
@@ -25,6 +29,15 @@
 // patterns. "wild" files leave the class on purpose (duplicates, truncating sizes, non-integral
 // VAL_ values ...): for them only model = implementation is compared.
 // The generator does not use the code under test.
+//
+// Numeric paths exercised on purpose (the values must arrive in the database exactly as written):
+// INT / HEX attribute values beyond 2^24, 2^32 and up to 2^53 (start values, cycle and delay times,
+// attribute ranges and defaults; plain, ".0" and exponent spellings), factors / offsets / minima /
+// maxima with up to 25 significant digits and exponents (pool + random literals), message ids at the
+// limits of the standard and extended ranges, signals at the limits of start / size / multiplexer
+// value.  Signal names are reused across messages and the signal-level metadata lines of one name
+// are, in half of the files, made consecutive (both orders), so that a lookup that remembers a
+// signal by name only is exposed.
 package main
 
 import (
@@ -36,6 +49,7 @@ import (
 	"os"
 	"strconv"
 	"strings"
+	"unicode"
 
 	"go.einride.tech/can/internal/generate"
 	"go.einride.tech/can/pkg/dbc"
@@ -70,7 +84,8 @@ type msgT struct {
 
 type lineT struct {
 	text     string
-	resolved bool // a metadata line addMetadata consumes (may be permuted)
+	resolved bool   // a metadata line addMetadata consumes (may be permuted)
+	grp      string // signal-level metadata: the signal name it is about ("" otherwise)
 }
 
 type fileT struct {
@@ -137,8 +152,17 @@ func (f *fileT) render(msgOrder []int, sigOrder [][]int, metaOrder []int) string
 
 var identPool = []string{"A", "B", "Cc", "DRIVER", "MOTOR", "SENSOR", "IO", "DBG", "Node_1", "n2", "Zeta", "abc", "ABC", "Ab", "aB", "ECU1", "ECU10", "ECU2", "_x", "Gateway"}
 var floatPool = []string{"1", "0", "0.5", "0.001", "-5", "100", "1e3", "2.5E-2", "65535", "-0", "0.1", "3.4E+38", "-1.5", "1.0", "12345.678"}
-var unitPool = []string{"", "km/h", "V", "mNm", "%", "deg C", "m/s^2", "\\\"q\\\"", "°", "Ω·m"}
-var textPool = []string{"", "Sync message", "The driver controller", "x", "comment with \\\"quotes\\\"", "multi word comment 123", "ünï", "a;b", "BO_ 1 X: 0 Y"}
+
+// many significant digits, rounding boundaries, the ends of the exponent range (the correctly rounded
+// conversion of these is expensive in the model: used for about one number in seven)
+var floatPoolRich = []string{"0.30000000000000004", "1.7976931348623157e308", "-1.7976931348623157E+308", "4.9406564584124654e-324", "5e-324", "2.2250738585072014E-308",
+	"2.2250738585072011e-308", "0.1234567890123456789012345", "123456789012345678901234567890", "9007199254740993", "9007199254740992.5",
+	"16777217", "4294967297", "1e-7", "6.02214076e23", "3.141592653589793238462643383279", "0.000001", "1E+2", "8.98846567431158e307",
+	"0.333333333333333314829616256247", "1.00000000000000011102230246251565404236316680908203125", "4503599627370496.5", "-4503599627370497.5",
+	"0.1e1", "1.0e+0", "299792.458E3", "1e22", "1e23", "8.41e21", "2.4703282292062328e-324", "1.5e-323"}
+var unitPool = []string{"", "km/h", "V", "mNm", "%", "deg C", "m/s^2", "\\\"q\\\"", "°", "Ω·m", "°C", "µs", "m²", "‰", "–", "温度", "😀/s", "kΩ"}
+var textPool = []string{"", "Sync message", "The driver controller", "x", "comment with \\\"quotes\\\"", "multi word comment 123", "ünï", "a;b", "BO_ 1 X: 0 Y",
+	"Öl-Temperatur in °C", "größer – kleiner", "速度 (km/h)", "état: arrêté", "😀 ok", "naïve café ½", "Ω\\\"Ω\\\""}
 var sendTypePool = []string{"Cyclic", "cyclic", "CYCLIC", "CyclicIfActive", "cyclicifactive", "Periodic", "PERIODIC", "FixedPeriodic", "fixedperiodic",
 	"EnabledPeriodic", "EVENTPERIODIC", "EventPeriodic", "Event", "EVENT", "event", "OnEvent", "onevent", "ONEVENT", "None", "NoMsgSendType", "IfActive", "", "Cyclic ", "spontaneous", "cyclicX", "[Cyclic]", "cyclic`", "CYCLIC@"}
 var enumDecl = []string{"None", "Cyclic", "OnEvent", "cyclicIfActive", "PERIODIC", "FixedPeriodic", "enabledperiodic", "EventPeriodic", "Event", "IfActive", "NoMsgSendType"}
@@ -149,6 +173,95 @@ type gen struct {
 }
 
 func (g *gen) pick(xs []string) string { return xs[g.r.Intn(len(xs))] }
+
+func (g *gen) digits(n int) string {
+	b := make([]byte, n)
+	for i := range b {
+		b[i] = byte('0' + g.r.Intn(10))
+	}
+	return string(b)
+}
+
+// a float literal: from the pool, or random with up to 25 significant digits, optional fraction and
+// exponent (always finite: the integer part has at most 25 digits and |exponent| <= 40)
+func (g *gen) float() string {
+	r := g.r
+	switch k := r.Intn(20); {
+	case k < 12:
+		return g.pick(floatPool)
+	case k < 15:
+		return g.pick(floatPoolRich)
+	}
+	var b strings.Builder
+	if r.Intn(3) == 0 {
+		b.WriteString("-")
+	}
+	ni := 1 + r.Intn(25)
+	ip := g.digits(ni)
+	if ip[0] == '0' && ni > 1 { // no leading zeros (text/scanner reads them as octal)
+		ip = "1" + ip[1:]
+	}
+	if r.Intn(4) == 0 {
+		ip = "0"
+	}
+	b.WriteString(ip)
+	if r.Intn(2) == 0 {
+		b.WriteString(".")
+		nf := 25 - len(ip)
+		if nf < 1 {
+			nf = 1
+		}
+		b.WriteString(g.digits(1 + r.Intn(nf)))
+	}
+	if r.Intn(2) == 0 {
+		b.WriteString([]string{"e", "E"}[r.Intn(2)])
+		b.WriteString([]string{"", "+", "-"}[r.Intn(3)])
+		b.WriteString(strconv.Itoa(r.Intn(41)))
+	}
+	return b.String()
+}
+
+// an integer whose magnitude exercises the precision of whatever the parser routes INT values
+// through: beyond 2^24 (float32), beyond 2^32, up to lim (<= 2^53: exact in float64), low bits set
+func (g *gen) bigInt(lim int64) int64 {
+	r := g.r
+	var v int64
+	switch r.Intn(6) {
+	case 0:
+		v = 1<<24 + 1 + int64(r.Intn(1<<20))
+	case 1:
+		v = 1<<32 + 1 + int64(r.Intn(1<<30))
+	case 2:
+		v = lim - int64(r.Intn(4))
+	case 3:
+		v = []int64{16777217, 33554435, 20000001, 2147483649, 4294967295, 4294967297, 1099511627777, 123456789, 987654321987}[r.Intn(9)]
+	default:
+		v = 1<<24 + r.Int63n(lim-1<<24)
+	}
+	v |= 1
+	if v > lim {
+		v = lim
+	}
+	return v
+}
+
+// spellings of an integer that Parser.int() accepts: digits, digits ".0", exponent form (only when
+// the shortest float64 spelling is exact, |v| <= 2^53)
+func (g *gen) intText(v int64) string {
+	switch g.r.Intn(6) {
+	case 0:
+		return strconv.FormatInt(v, 10) + ".0"
+	case 1:
+		if v >= -(1<<53) && v <= 1<<53 {
+			return strconv.FormatFloat(float64(v), 'e', -1, 64)
+		}
+	case 2:
+		if v >= -(1<<53) && v <= 1<<53 {
+			return strings.Replace(strconv.FormatFloat(float64(v), 'E', -1, 64), "E+", "E", 1)
+		}
+	}
+	return strconv.FormatInt(v, 10)
+}
 
 func (g *gen) names(n int, prefix string) []string {
 	seen := map[string]bool{}
@@ -169,15 +282,38 @@ func (g *gen) names(n int, prefix string) []string {
 	return out
 }
 
+func max0(x int) int {
+	if x < 0 {
+		return 0
+	}
+	return x
+}
+
 // big-endian start bit for stream position p (sawtooth numbering)
 func beStart(p int) int { return 8*(p/8) + 7 - p%8 }
 
-func (g *gen) signals(msize int, nodes []string, n int) []sigT {
+func (g *gen) signals(msize int, nodes []string, n int, earlier []string) []sigT {
 	bits := 8 * msize
 	if bits == 0 {
 		return nil
 	}
 	names := g.names(n, "Sig")
+	// reuse signal names of earlier messages (names only have to be unique inside a message)
+	if len(earlier) > 0 && g.r.Intn(2) == 0 {
+		seen := map[string]bool{}
+		for _, nm := range names {
+			seen[nm] = true
+		}
+		for i := range names {
+			if g.r.Intn(2) == 0 {
+				nm := earlier[g.r.Intn(len(earlier))]
+				if !seen[nm] {
+					seen[nm] = true
+					names[i] = nm
+				}
+			}
+		}
+	}
 	used := map[[2]uint64]bool{}
 	var out []sigT
 	hasMux := false
@@ -203,6 +339,22 @@ func (g *gen) signals(msize int, nodes []string, n int) []sigT {
 			p := g.r.Intn(bits - s.size + 1)
 			if g.r.Intn(2) == 0 {
 				p = 8 * (p / 8) // byte aligned: more shared start bits
+			}
+			if g.r.Intn(8) == 0 {
+				// the limits: the last bit alone, the whole payload, all but one bit at either end
+				switch g.r.Intn(4) {
+				case 0:
+					s.size, p = 1, bits-1
+				case 1:
+					s.size, p = bits, 0
+				case 2:
+					s.size, p = bits-1, 1
+				case 3:
+					s.size, p = bits-1, 0
+				}
+				if s.size == 0 {
+					s.size, p = 1, 0
+				}
 			}
 			if s.be {
 				if p+s.size > bits {
@@ -233,7 +385,7 @@ func (g *gen) signals(msize int, nodes []string, n int) []sigT {
 				hasMux = true
 			}
 			s.signed = g.r.Intn(3) == 0
-			s.factor, s.offset, s.min, s.max = g.pick(floatPool), g.pick(floatPool), g.pick(floatPool), g.pick(floatPool)
+			s.factor, s.offset, s.min, s.max = g.float(), g.float(), g.float(), g.float()
 			s.unit = g.pick(unitPool)
 			nr := 1 + g.r.Intn(3)
 			for j := 0; j < nr; j++ {
@@ -256,7 +408,8 @@ var valForms = []func(int64) string{
 	func(v int64) string { return strconv.FormatFloat(float64(v), 'e', -1, 64) },
 }
 
-func (g *gen) valLine(target string, wild bool) string {
+// lim: values at the limits of the raw range of the signal (exactly representable as float64)
+func (g *gen) valLine(target string, wild bool, lim []int64) string {
 	n := g.r.Intn(6)
 	seen := map[int64]bool{}
 	var b strings.Builder
@@ -270,6 +423,12 @@ func (g *gen) valLine(target string, wild bool) string {
 			v = -int64(g.r.Intn(6))
 		case 2:
 			v = []int64{255, 256, 65535, 4294967295, 4294967296, 1 << 52, -(1 << 53), 1<<53 - 1}[g.r.Intn(8)]
+		case 3:
+			if len(lim) > 0 {
+				v = lim[g.r.Intn(len(lim))]
+			} else {
+				v = int64(g.r.Intn(40))
+			}
 		default:
 			v = int64(g.r.Intn(40))
 		}
@@ -327,6 +486,7 @@ func (g *gen) file() *fileT {
 	}
 	mnames := g.names(nm, "Msg")
 	ids := map[uint32]bool{}
+	var earlierSigs []string
 	for i := 0; i < nm; i++ {
 		m := msgT{name: mnames[i]}
 		for {
@@ -337,6 +497,10 @@ func (g *gen) file() *fileT {
 				}
 			} else {
 				m.id = uint32(r.Intn(0x800))
+			}
+			if r.Intn(8) == 0 {
+				// the limits of the standard and extended ranges
+				m.id = []uint32{0, 1, 0x7fe, 0x7ff, 0x80000000, 0x80000001, 0x800007ff, 0x80000800, 0x9ffffffe, 0x9fffffff}[r.Intn(10)]
 			}
 			if !ids[m.id&0x7fffffff] {
 				break
@@ -353,7 +517,10 @@ func (g *gen) file() *fileT {
 		if r.Intn(3) == 0 {
 			ns = r.Intn(5)
 		}
-		m.sigs = g.signals(m.size, nodes, ns)
+		m.sigs = g.signals(m.size, nodes, ns, earlierSigs)
+		for _, sg := range m.sigs {
+			earlierSigs = append(earlierSigs, sg.name)
+		}
 		if wild {
 			switch r.Intn(6) {
 			case 0:
@@ -398,8 +565,18 @@ func (g *gen) file() *fileT {
 		f.msgs = append(f.msgs[:pos], append([]msgT{m}, f.msgs[pos:]...)...)
 	}
 	// ---- fixed middle part
-	fixed := func(s string) { f.tail = append(f.tail, lineT{s, false}) }
-	meta := func(s string) { f.tail = append(f.tail, lineT{s, true}) }
+	fixed := func(s string) { f.tail = append(f.tail, lineT{s, false, ""}) }
+	meta := func(s string) { f.tail = append(f.tail, lineT{s, true, ""}) }
+	metaSig := func(name, s string) { f.tail = append(f.tail, lineT{s, true, name}) }
+	// a time in ms whose nanosecond value still fits time.Duration (|v| * 10^6 < 2^63)
+	const maxMs = 9223372036854
+	msText := func() string {
+		v := g.bigInt(maxMs)
+		if r.Intn(6) == 0 {
+			v = -v
+		}
+		return g.intText(v)
+	}
 	if len(f.msgs) > 0 && r.Intn(3) == 0 {
 		fixed(fmt.Sprintf("BO_TX_BU_ %d : %s,%s;", f.msgs[0].id, nodes[0], nodes[len(nodes)-1]))
 	}
@@ -412,22 +589,61 @@ func (g *gen) file() *fileT {
 	}
 	fixed("BA_DEF_ \"BusType\" STRING ;")
 	fixed("BA_DEF_ BO_ \"GenMsgSendType\" ENUM \"" + strings.Join(enumDecl, "\",\"") + "\";")
-	fixed("BA_DEF_ BO_ \"GenMsgCycleTime\" INT 0 0;")
-	fixed("BA_DEF_ BO_ \"GenMsgDelayTime\" INT 0 1000;")
-	fixed("BA_DEF_ SG_ \"GenSigStartValue\" INT -10000 10000;")
+	rng := func() string {
+		switch r.Intn(4) {
+		case 0:
+			return "0 0"
+		case 1:
+			return "-10000 10000"
+		case 2:
+			return fmt.Sprintf("%s %s", g.intText(-g.bigInt(1<<53)), g.intText(g.bigInt(1<<53)))
+		}
+		return "0 " + g.intText(g.bigInt(1<<53))
+	}
+	fixed("BA_DEF_ BO_ \"GenMsgCycleTime\" INT " + rng() + ";")
+	fixed("BA_DEF_ BO_ \"GenMsgDelayTime\" INT " + rng() + ";")
+	fixed("BA_DEF_ SG_ \"GenSigStartValue\" INT " + rng() + ";")
+	fixed("BA_DEF_ BO_ \"MsgHex\" HEX " + rng() + ";")
+	fixed("BA_DEF_ SG_ \"SigHex\" HEX " + rng() + ";")
 	fixed("BA_DEF_ SG_ \"FieldType\" STRING ;")
 	fixed("BA_DEF_ BU_ \"NodeLayer\" INT 0 10;")
 	fixed("BA_DEF_ BO_ \"Weight\" FLOAT 0 100;")
 	fixed("BA_DEF_ EV_ \"EvAttr\" HEX 0 10;")
 	fixed("BA_DEF_DEF_ \"BusType\" \"CAN\";")
 	fixed("BA_DEF_DEF_ \"GenMsgSendType\" \"None\";")
-	fixed("BA_DEF_DEF_ \"GenMsgCycleTime\" 0;")
-	fixed("BA_DEF_DEF_ \"GenSigStartValue\" 0;")
+	dflt := func() string {
+		if r.Intn(2) == 0 {
+			return "0"
+		}
+		return g.intText(g.bigInt(1 << 53))
+	}
+	fixed("BA_DEF_DEF_ \"GenMsgCycleTime\" " + dflt() + ";")
+	fixed("BA_DEF_DEF_ \"GenSigStartValue\" " + dflt() + ";")
+	if r.Intn(2) == 0 {
+		fixed("BA_DEF_DEF_ \"MsgHex\" " + dflt() + ";")
+	}
 	// ---- metadata
 	type sigRef struct {
-		id   uint32
-		name string
-		len  int
+		id     uint32
+		name   string
+		len    int
+		signed bool
+	}
+	// the largest float64 below 2^k as an integer (2^k - 1 when that is exact)
+	below := func(k int) int64 {
+		if k <= 53 {
+			return 1<<uint(k) - 1
+		}
+		if k >= 64 {
+			k = 63 // int64(float64) is only defined below 2^63: the class stops there
+		}
+		return 1<<uint(k) - 1<<uint(k-53)
+	}
+	rawLimits := func(s sigRef) []int64 {
+		if s.signed {
+			return []int64{-(1 << uint(s.len-1)), below(s.len - 1), -(1 << uint(s.len-1)) + 1<<uint(max0(s.len-54)), 0, -1}
+		}
+		return []int64{0, 1, below(s.len), below(s.len) - 1<<uint(max0(s.len-53))}
 	}
 	var sigRefs []sigRef
 	var msgIDs []uint32
@@ -437,7 +653,7 @@ func (g *gen) file() *fileT {
 		}
 		msgIDs = append(msgIDs, m.id)
 		for _, s := range m.sigs {
-			sigRefs = append(sigRefs, sigRef{m.id, s.name, s.size})
+			sigRefs = append(sigRefs, sigRef{m.id, s.name, s.size, s.signed})
 		}
 	}
 	// how a metadata line spells the id of a message: as declared, or with the extended flag flipped
@@ -496,13 +712,23 @@ func (g *gen) file() *fileT {
 		}
 		if r.Intn(2) == 0 {
 			v := []string{"0", "1", "10", "100", "1000", "20", "-5", "60000", "3.0", "9223372036854", "-9223372036854", "2.5e2"}[r.Intn(12)]
+			if r.Intn(2) == 0 {
+				v = msText()
+			}
 			if wild && r.Intn(3) == 0 {
-				v = []string{"9223372036855", "18446744073710", "1e19", "-1e19", "123456789012345678"}[r.Intn(5)]
+				v = []string{"9223372036855", "18446744073710", "1e19", "-1e19", "123456789012345678", "9007199254740993"}[r.Intn(6)]
 			}
 			meta(fmt.Sprintf("BA_ \"GenMsgCycleTime\" BO_ %d %s;", spell(id), v))
 		}
 		if r.Intn(4) == 0 {
-			meta(fmt.Sprintf("BA_ \"GenMsgDelayTime\" BO_ %d %d;", spell(id), r.Intn(500)))
+			v := strconv.Itoa(r.Intn(500))
+			if r.Intn(2) == 0 {
+				v = msText()
+			}
+			meta(fmt.Sprintf("BA_ \"GenMsgDelayTime\" BO_ %d %s;", spell(id), v))
+		}
+		if r.Intn(6) == 0 {
+			meta(fmt.Sprintf("BA_ \"MsgHex\" BO_ %d %s;", spell(id), g.intText(g.bigInt(1<<53))))
 		}
 		if r.Intn(6) == 0 {
 			meta(fmt.Sprintf("BA_ \"Weight\" BO_ %d 2.5;", spell(id)))
@@ -516,16 +742,16 @@ func (g *gen) file() *fileT {
 		target := fmt.Sprintf("%d %s", spell(s.id), s.name)
 		if r.Intn(4) == 0 {
 			for k := dup(); k > 0; k-- {
-				meta(fmt.Sprintf("CM_ SG_ %s \"%s\";", target, g.pick(textPool)))
+				metaSig(s.name, fmt.Sprintf("CM_ SG_ %s \"%s\";", target, g.pick(textPool)))
 			}
 		}
-		if r.Intn(4) == 0 {
+		if r.Intn(4) == 0 || ((s.len == 1 || s.len >= 63) && r.Intn(2) == 0) {
 			// at most two VAL_ lines (<= 10 entries) per (CAN id, signal name): with tied values the
 			// insertion-sort model of sort.Slice is only exact up to 12 elements (Base/Sort.v)
 			vk := fmt.Sprintf("%d %s", s.id&0x7fffffff, s.name)
 			for k := dup(); k > 0 && valLines[vk] < 2; k-- {
 				valLines[vk]++
-				meta(g.valLine(target, wild))
+				metaSig(s.name, g.valLine(target, wild, rawLimits(s)))
 			}
 		}
 		if r.Intn(4) == 0 || (s.len == 32 && r.Intn(2) == 0) {
@@ -538,14 +764,29 @@ func (g *gen) file() *fileT {
 				if s.len == 32 {
 					vt = []int{0, 1, 1, 1, 2}[r.Intn(5)]
 				}
-				meta(fmt.Sprintf("SIG_VALTYPE_ %s%s %d;", target, colon, vt))
+				metaSig(s.name, fmt.Sprintf("SIG_VALTYPE_ %s%s %d;", target, colon, vt))
 			}
 		}
-		if r.Intn(4) == 0 {
-			meta(fmt.Sprintf("BA_ \"GenSigStartValue\" SG_ %s %s;", target, []string{"0", "1", "2", "-3", "10000", "255", "7.0", "-9223372036854775808"}[r.Intn(8)]))
+		if r.Intn(4) == 0 || (s.len > 24 && r.Intn(3) == 0) {
+			v := []string{"0", "1", "2", "-3", "10000", "255", "7.0", "-9223372036854775808"}[r.Intn(8)]
+			if s.len > 24 || r.Intn(3) == 0 {
+				// start values of wide signals: beyond 2^24 / 2^32, up to 2^53, both signs
+				x := g.bigInt(1 << 53)
+				if r.Intn(3) == 0 {
+					x = -x
+				}
+				v = g.intText(x)
+			}
+			if wild && r.Intn(4) == 0 {
+				v = []string{"9007199254740993", "-9007199254740995", "9223372036854775807", "1e19", "36028797018963969"}[r.Intn(5)]
+			}
+			metaSig(s.name, fmt.Sprintf("BA_ \"GenSigStartValue\" SG_ %s %s;", target, v))
 		}
 		if r.Intn(8) == 0 {
-			meta(fmt.Sprintf("BA_ \"FieldType\" SG_ %s \"%s\";", target, s.name))
+			metaSig(s.name, fmt.Sprintf("BA_ \"FieldType\" SG_ %s \"%s\";", target, []string{s.name, g.pick(textPool), g.pick(unitPool)}[r.Intn(3)]))
+		}
+		if r.Intn(8) == 0 {
+			metaSig(s.name, fmt.Sprintf("BA_ \"SigHex\" SG_ %s %s;", target, g.intText(g.bigInt(1<<53))))
 		}
 	}
 	// metadata that references nothing declared: must warn, must attach to nothing
@@ -562,23 +803,23 @@ func (g *gen) file() *fileT {
 		case 1:
 			meta(fmt.Sprintf("CM_ BO_ %d \"%s\";", uid, g.pick(textPool)))
 		case 2:
-			meta(fmt.Sprintf("CM_ SG_ %d %s \"%s\";", uid, someSig, g.pick(textPool)))
+			metaSig(someSig, fmt.Sprintf("CM_ SG_ %d %s \"%s\";", uid, someSig, g.pick(textPool)))
 		case 3:
 			if len(msgIDs) > 0 {
 				meta(fmt.Sprintf("CM_ SG_ %d Ghost%d \"%s\";", msgIDs[r.Intn(len(msgIDs))], i, g.pick(textPool)))
 			}
 		case 4:
 			if len(msgIDs) > 0 {
-				meta(g.valLine(fmt.Sprintf("%d Ghost%d", msgIDs[r.Intn(len(msgIDs))], i), wild))
+				meta(g.valLine(fmt.Sprintf("%d Ghost%d", msgIDs[r.Intn(len(msgIDs))], i), wild, nil))
 			} else {
-				meta(g.valLine(fmt.Sprintf("%d %s", uid, someSig), wild))
+				metaSig(someSig, g.valLine(fmt.Sprintf("%d %s", uid, someSig), wild, nil))
 			}
 		case 5:
-			meta(fmt.Sprintf("SIG_VALTYPE_ %d %s : 1;", uid, someSig))
+			metaSig(someSig, fmt.Sprintf("SIG_VALTYPE_ %d %s : 1;", uid, someSig))
 		case 6:
 			meta(fmt.Sprintf("BA_ \"GenMsgCycleTime\" BO_ %d 100;", uid))
 		case 7:
-			meta(fmt.Sprintf("BA_ \"GenSigStartValue\" SG_ %d %s 1;", uid, someSig))
+			metaSig(someSig, fmt.Sprintf("BA_ \"GenSigStartValue\" SG_ %d %s %s;", uid, someSig, g.intText(g.bigInt(1<<53))))
 		case 8:
 			if len(msgIDs) > 0 {
 				meta(fmt.Sprintf("BA_ \"GenSigStartValue\" SG_ %d Ghost%d 1;", msgIDs[r.Intn(len(msgIDs))], i))
@@ -618,10 +859,34 @@ func (g *gen) file() *fileT {
 		}
 	}
 	r.Shuffle(len(metas), func(i, j int) { metas[i], metas[j] = metas[j], metas[i] })
+	// in half of the files the signal-level lines about one signal NAME (of whatever message) are made
+	// consecutive, in the (random) order they have after the shuffle: lines for same-named signals of
+	// different messages then directly follow each other, in both orders over the run
+	adjacent := r.Intn(2) == 0
+	if adjacent {
+		var out []lineT
+		done := map[string]bool{}
+		for i, l := range metas {
+			if l.grp == "" {
+				out = append(out, l)
+				continue
+			}
+			if done[l.grp] {
+				continue
+			}
+			done[l.grp] = true
+			for _, l2 := range metas[i:] {
+				if l2.grp == l.grp {
+					out = append(out, l2)
+				}
+			}
+		}
+		metas = out
+	}
 	f.tail = fixeds
-	for _, l := range metas {
-		if r.Intn(5) == 0 {
-			f.tail = append(f.tail, lineT{ign[r.Intn(len(ign))], false})
+	for i, l := range metas {
+		if r.Intn(5) == 0 && !(adjacent && i > 0 && l.grp != "" && metas[i-1].grp == l.grp) {
+			f.tail = append(f.tail, lineT{ign[r.Intn(len(ign))], false, ""})
 		}
 		f.tail = append(f.tail, l)
 	}
@@ -753,9 +1018,29 @@ func runCase(w *bufio.Writer, file, variant int, kind, what, source, text string
 	fmt.Fprintln(w, "END")
 }
 
+// the non-ASCII rune classes of the scanner (unicode.IsLetter / unicode.IsDigit), as maximal ranges
+func emitUnicode(w *bufio.Writer) {
+	emit := func(tag string, f func(rune) bool) {
+		lo := rune(-1)
+		for r := rune(128); r <= unicode.MaxRune+1; r++ {
+			in := r <= unicode.MaxRune && f(r)
+			if in && lo < 0 {
+				lo = r
+			}
+			if !in && lo >= 0 {
+				fmt.Fprintf(w, "UNI %s %x %x\n", tag, lo, r-1)
+				lo = -1
+			}
+		}
+	}
+	emit("L", unicode.IsLetter)
+	emit("D", unicode.IsDigit)
+}
+
 func main() {
 	w := bufio.NewWriterSize(os.Stdout, 1<<20)
 	defer w.Flush()
+	emitUnicode(w)
 	if len(os.Args) >= 2 && os.Args[1] == "text" {
 		for i, fn := range os.Args[2:] {
 			data, err := os.ReadFile(fn)
